@@ -1450,13 +1450,13 @@ fn slots(quick: bool) -> Vec<Slot> {
     let full: &[&[u16]] = &[&[], &[T_A], &[T_A, T_TXT], &[T_CNAME]];
     if quick {
         vec![
-            s("a.z.", 1, full),
+            s("a.z.", 1, &[&[], &[T_A], &[T_CNAME]]),
             s("A.z.", 2, &[&[], &[T_A], &[T_TXT]]),
             s("b.a.z.", 1, &[&[], &[T_TXT, T_CAA, T_PRIV], &[T_A, T_PRIV, T_PRIV2]]),
             // y.a.z. never owns data: an ENT whose nearest non-empty
             // ancestor is a.z. (not the apex) whenever a.z./A.z. has data
             s("x.y.a.z.", 1, &[&[], &[T_A]]),
-            s("*.a.z.", 1, &[&[], &[T_A], &[T_CNAME]]),
+            s("*.a.z.", 1, &[&[], &[T_A]]),
             // delegation owners with glue-at-the-cut: two A records sort
             // before the NS RRset; A + NS + AAAA surrounds it
             s("c.z.", 1, &[&[], &[T_NS], &[T_NS, T_A, T_A], &[T_NS, T_A, T_AAAA]]),
